@@ -337,6 +337,11 @@ func newRuntimeState(compiled config.Compiled) *runtimeState {
 func (s *runtimeState) updateAll(compiled config.Compiled) {
 	s.mu.Lock()
 	defer s.mu.Unlock()
+	s.updateAllLocked(compiled)
+}
+
+// updateAllLocked is updateAll for callers that already hold s.mu.
+func (s *runtimeState) updateAllLocked(compiled config.Compiled) {
 	s.routes = compiled.Routes
 	s.pathToRoute = compiled.PathToRoute
 	s.trendSignals = compiled.Defaults.TrendSignals
@@ -845,6 +850,14 @@ func queueTrendSignalConfigFromCompiled(in config.TrendSignalsConfig) queue.Back
 }
 
 func (s *runtimeState) loadAuth(compiled config.Compiled) error {
+	return s.loadAuthAnd(compiled, nil)
+}
+
+// loadAuthAnd loads every secret and builds the authenticators for compiled,
+// then publishes them under the state lock; alsoLocked, if not nil, runs in
+// that same critical section, so that a reload can switch authenticators,
+// route table and limiters at one instant.
+func (s *runtimeState) loadAuthAnd(compiled config.Compiled, alsoLocked func()) error {
 	tokens := make([][]byte, 0, len(compiled.PullAPI.AuthTokens))
 	for _, ref := range compiled.PullAPI.AuthTokens {
 		b, err := secrets.LoadRef(ref)
@@ -1012,6 +1025,9 @@ func (s *runtimeState) loadAuth(compiled config.Compiled) error {
 		delete(s.retiredHMAC, path)
 	}
 	s.hmacByRoute = hmacByRoute
+	if alsoLocked != nil {
+		alsoLocked()
+	}
 	s.mu.Unlock()
 	return nil
 }
@@ -1143,11 +1159,12 @@ func reloadConfig(path string, running config.Compiled, state *runtimeState, log
 		return running, false
 	}
 
-	if err := state.loadAuth(compiled); err != nil {
+	// Authenticators, route table and limiters are swapped in one critical
+	// section: no request is served between the two halves of a reload.
+	if err := state.loadAuthAnd(compiled, func() { state.updateAllLocked(compiled) }); err != nil {
 		logger.Error("config_reload_failed", slog.Any("err", err), slog.String("trigger", trigger))
 		return running, false
 	}
-	state.updateAll(compiled)
 
 	logger.Info("config_reloaded_ok", slog.String("trigger", trigger))
 	return compiled, true
